@@ -294,7 +294,7 @@ func RunC15(c *Ctx) {
 	}
 	n := 12000
 	if c.Thorough() {
-		n = 300000
+		n = 120000
 	}
 	for i := 0; i < n; i++ {
 		if c.NShards > 1 && i%c.NShards != c.Shard {
